@@ -439,6 +439,21 @@ def r6(ctx: Ctx, m):
             b = b.value
           if isinstance(b, ast.Name) and b.id == 'self':
             problem = (x, f'removes accumulated entries (`{unparse(x)[:50]}`)')
+        # ... nor hands a truncated view of the operand to the state object that
+        # does the combining (self.<state>.merge(<truncated>), update, extend, ...)
+        if isinstance(x, ast.Call) and isinstance(x.func, ast.Attribute) and x.func.attr in (
+            'merge', 'update', 'extend', 'append', 'add', 'insert', 'push'):
+          b = x.func.value
+          while isinstance(b, (ast.Attribute, ast.Subscript)):
+            b = b.value
+          if isinstance(b, ast.Name) and b.id == 'self' and not isinstance(x.func.value, ast.Name):
+            for a_ in list(x.args) + [k.value for k in x.keywords]:
+              why = _truncating(a_) or next(
+                  (trunc_names[y.id] for y in ast.walk(a_)
+                   if isinstance(y, ast.Name) and y.id in trunc_names), None)
+              if why:
+                problem = (x, f'combines only a truncated view of the operand ({why}) via'
+                           f' `{unparse(x.func)}`')
         if isinstance(x, ast.Call):
           callee = m.eff.resolve(x, fi)
           if callee is not None and callee.cls is not None:
@@ -510,6 +525,12 @@ _R = 'aggregates/rolling_stats.py'
 _U = 'aggregates/utils.py'
 _T = 'aggregates/retrieval.py'
 VARIANTS = [
+    B('merge-carries-only-operand-top-k', 'aggregates/text.py',
+      '    # TODO(b/331796958): Optimize storage consumption\n    self._state.merge(other.state)',
+      '    top_k = sorted(other.state.counter.items(), key=lambda x: (-x[1], x[0]))\n    other_state = FrequencyState(counter=collections.Counter(dict(top_k[: self.k])), count=other.state.count)\n    self._state.merge(other_state)',
+      'R-C11-6'),
+    OK('merge-through-local-alias-of-operand-state', 'aggregates/text.py',
+       '    # TODO(b/331796958): Optimize storage consumption\n    self._state.merge(other.state)', '    other_state = other.state\n    self._state.merge(other_state)'),
     B('flag-adopted-from-empty-operand', _R,
       '  def merge(self, other: Self) -> Self:\n    if not other.samples:\n      return self',
       '  def merge(self, other: Self) -> Self:\n    self._multi_input = other.multi_input\n    if not other.samples:\n      return self',
